@@ -381,6 +381,19 @@ func WaitIdle() {
 	}
 }
 
+// Idle reports whether every kqueue has nothing pending and its reader asleep
+// in Kevent right now.
+func Idle() bool {
+	mu.Lock()
+	defer mu.Unlock()
+	for _, q := range kqs {
+		if len(q.pending) > 0 || q.waiting == 0 {
+			return false
+		}
+	}
+	return true
+}
+
 // OpenVnodeFds lists descriptors opened through Open and not closed yet.
 func OpenVnodeFds() []int {
 	mu.Lock()
